@@ -398,7 +398,10 @@ pub fn big() -> File {
     fr.push(Body::UserData(UserData::text("raw-cel")));
     fr.push(zcel(1, -3, 2, 190, w, h, noise(n, 2), 6));
     fr.push(tm_cel(2, 0, 0, 255, 10, 8, (0..80u32).map(|i| i % 70).collect()));
+    // the last frame is itself larger than 64 KiB and holds several chunks
     f.frames[1].push(link_cel(0, 0, 0, 255, 0));
+    f.frames[1].push(raw_cel(1, 5, -4, 255, w, h, noise(n, 5)));
+    f.frames[1].push(Body::UserData(UserData::text("second-frame-cel")));
     f.frames[1].push(tm_cel(2, 16, 16, 128, 150, 120, (0..18000u32).map(|i| (i * 7) % 70).collect()));
     f
 }
